@@ -9,15 +9,24 @@ the real `Equilibrium.get_net_comp` in the listed order and in a permuted order,
 independent element-potential solver `vf.ref.gibbs`.
 
 Oracles (at the public boundary)
-  Q1 atoms      n^T A = b (A, b rebuilt from the spec, not read from the object)
-  Q2 amounts    n >= 0, sum x = 1, x = n / sum n, species/T/P echoed
+  Q1 atoms      n^T A = b (A, b rebuilt from the spec, not read from the object); an exception of
+                the constructor or of get_net_comp on an in-range input is a Q1 violation
+  Q2 amounts    n >= 0, sum x = 1, x = n / sum n, species echoed in the listed order
   Q3 optimal    G(n_pmutt) <= G(n_ref) + tol   (reference must certify itself: duality gap)
-  Q4 reactions  |sum nu_i (g_i + ln(x_i P))| small for an integer null-space basis of the
-                formula matrix restricted to species with x > 1e-6
+  Q4 reactions  |sum nu_i (g_i + ln(x_i P))| <= tol * sqrt(sum nu_i^2 / x_i) for an integer
+                null-space basis of the formula matrix restricted to species with x > 1e-6
   Q5 order      permuted species order gives the same moles
   Q6 signal     OptimizeResult.success == False (seen by a sys.monitoring probe on
                 scipy.optimize.minimize as called from get_net_comp)  =>  the caller got a
                 warning or an exception.  Q1-Q5 are waived for runs signalled as failed.
+
+Every (network, feed, T, P) point is classified by the certified reference solution into a
+*regime* (an input feature, independent of what pMuTT returned): `regular` = every species has
+an equilibrium mole fraction >= 1e-8, `deep_trace` = some species lies below that,
+`forced_zero` = the atom balance alone forces some species to zero.  The regime (and the rank
+class of the formula matrix) is part of the mech of Q3-Q5, because SLSQP's accuracy on the
+unchanged tree depends on it (see the report / known findings); the tolerances are calibrated
+on the regular, full-rank class.
 """
 import math
 import os
@@ -27,7 +36,7 @@ import warnings
 from vf import core
 
 ID = 'C16'
-N = {'quick': 3000, 'thorough': 60000}
+N = {'quick': 5000, 'thorough': 60000}
 BUDGET = {'quick': 600, 'thorough': 6000}       # seconds per shard; a slow tree is inconclusive, not a hang
 NT_RULE = ('case = one network (random: 2-12 species over 1-4 elements with generated NASA-7 '
            'coefficients, G/RT span <= 60 at each T, full-rank or rank-deficient formula matrix; or '
@@ -64,6 +73,12 @@ ASSUMPTIONS = [
     'pinned-network points below ~1250 K have a G/RT span above 60 (up to 250 at 300 K); they are '
     'kept because the design names them, the mech carries span so they can be told apart',
     'feeds: amounts are 0 or >= 0.01 with three decimals; every element total > 0',
+    'Q4 measures the affinity of a reaction in the metric sqrt(sum nu_i^2/x_i): an error d in ln x_i '
+    'costs n_i d^2/2 of Gibbs energy, so a minimiser that stops on the objective leaves d ~ 1/sqrt(x_i); '
+    'for reactions among major species this is the plain |deltaG + RT ln Q| <= ~1e-3 RT',
+    'Q3-Q5 tolerances are calibrated on full-rank networks in the regular regime (all equilibrium mole '
+    'fractions >= 1e-8); the other classes are asserted with the same tolerances and carry their class in '
+    'the mech',
 ]
 
 POOL = ['H', 'C', 'O', 'N', 'S', 'Ar', 'He', 'Cl']
@@ -74,8 +89,8 @@ TRACE = 1e-6
 TOL_Q1 = 1e-8          # * sum(b)
 TOL_Q2 = 1e-12
 TOL_Q3 = 1e-9          # * (1 + |G|)
-TOL_Q4 = 1e-4          # * sqrt(sum nu_i^2 / x_i)
-TOL_Q5 = 2e-6          # * sum(b)
+TOL_Q4 = 5e-4          # * sqrt(sum nu_i^2 / x_i)
+TOL_Q5 = 5e-6          # * sum(b)
 DEEP = 1e-8            # regime boundary: smallest equilibrium mole fraction (reference solution)
 
 PINNED_REL = os.path.join('pmutt', 'tests', 'equilibrium', 'thermdat_equilibrium_unittest.txt')
@@ -563,7 +578,7 @@ def _build(spec, species, path, order, ctx, mech):
 
 
 def _solve(eq, T, P):
-    """-> (result | None, exception | None, [warning texts], [minimize records])"""
+    """-> (result | None, exception | None, [warning texts], [minimize records], minimize args)"""
     _ST['min'] = []
     _ST['args'] = None
     res = exc = None
